@@ -178,7 +178,7 @@ func StyleFromProperties(properties StyleProperties) Style {
 			if i > 0 {
 				buf.WriteString(", ")
 			}
-			fmt.Fprintf(&buf, "url(\"%s\")", cssEscapeString(URLSanitized(url).String()))
+			fmt.Fprintf(&buf, "url(\"%s\")", cssEscapeURLString(URLSanitized(url).String()))
 		}
 		buf.WriteString(";")
 	}
@@ -284,7 +284,21 @@ func filter(value string, pattern *regexp.Regexp) string {
 // On top of the escape sequences required in <string-token>, this function also escapes
 // control runes to minimize the risk of these runes triggering browser-specific bugs.
 func cssEscapeString(s string) string {
+	return cssEscape(s, false)
+}
+
+// cssEscapeURLString is cssEscapeString for the strings of url(...) values. A CSS parser
+// consumes one white space after an escape sequence, also after one with six digits, so a
+// space that follows an escaped rune is escaped as well: the parser would otherwise read
+// `/\000009 /host/x` (a tab and a space between the slashes) as "/<TAB>/host/x", which a URL
+// parser takes for the scheme-relative URL "//host/x".
+func cssEscapeURLString(s string) string {
+	return cssEscape(s, true)
+}
+
+func cssEscape(s string, spaceAfterEscape bool) string {
 	var b bytes.Buffer
+	afterEscape := false
 	b.Grow(len(s))
 	// TODO: consider optmizations (e.g. ranging over bytes, batching writes of contiguous sequences of unescaped runes) if
 	// performance becomes an issue.
@@ -301,9 +315,15 @@ func cssEscapeString(s string) string {
 			c == '\u2028', c == '\u2029':   // Unicode newline characters
 			// See CSS escape sequence syntax at https://www.w3.org/TR/css-syntax-3/#escape-diagram.
 			fmt.Fprintf(&b, "\\%06X", c)
+			afterEscape = true
+			continue
+		case c == ' ' && afterEscape && spaceAfterEscape:
+			b.WriteString(`\000020`)
+			continue
 		default:
 			b.WriteRune(c)
 		}
+		afterEscape = false
 	}
 	return b.String()
 }
